@@ -22,6 +22,12 @@ pub open spec fn get_strarr<T: Tag>(h: Header<T>, tag: u32) -> Option<Seq<String
         None => None,
     }
 }
+pub open spec fn get_i18n<T: Tag>(h: Header<T>, tag: u32) -> Option<Seq<char>> {
+    match entry_of(h, tag) {
+        Some(e) => match e.data { IndexData::I18NString(d) => if d@.len() > 0 { Some(d@[0]@) } else { None }, _ => None },
+        None => None,
+    }
+}
 pub open spec fn get_u32<T: Tag>(h: Header<T>, tag: u32) -> Option<u32> {
     match entry_of(h, tag) {
         Some(e) => match e.data { IndexData::Int32(d) => if d@.len() > 0 { Some(d@[0]) } else { None }, _ => None },
@@ -43,6 +49,11 @@ impl<T: Tag> Header<T> {
     #[verifier::external_body]
     pub fn get_entry_data_as_string(&self, tag: T) -> (r: Result<&str, Error>)
         ensures match get_str(*self, tag.spec_to_u32()) { Some(d) => r is Ok && r->Ok_0@ == d, None => r is Err },
+            (r is Err && entry_of(*self, tag.spec_to_u32()) is None) ==> r->Err_0 is TagNotFound,
+    { unimplemented!() }
+    #[verifier::external_body]
+    pub fn get_entry_data_as_i18n_string(&self, tag: T) -> (r: Result<&str, Error>)
+        ensures match get_i18n(*self, tag.spec_to_u32()) { Some(d) => r is Ok && r->Ok_0@ == d, None => r is Err },
             (r is Err && entry_of(*self, tag.spec_to_u32()) is None) ==> r->Err_0 is TagNotFound,
     { unimplemented!() }
     #[verifier::external_body]
